@@ -1030,10 +1030,9 @@ class RefWorlds:
                 if ids is None:
                     fails.append(("C01", "extend returned %r" % ret))
                 elif len(ids) != rows:
-                    if n == 0 and rows > 0 and len(ids) == 0:
-                        known = "K01"
-                    else:
-                        fails.append(("C01", "extend of %d rows returned %d identifiers" % (rows, len(ids))))
+                    # (the class of finding F5 — a batch of component-less entities stored nothing — was repaired in
+                    #  /repo; a fixed entry suppresses nothing)
+                    fails.append(("C01", "extend of %d rows returned %d identifiers" % (rows, len(ids))))
                 else:
                     for r, e in enumerate(ids):
                         if e in self.ever[ws]:
@@ -1278,9 +1277,25 @@ def oracle_case(impl_case):
     corners = set()
     prev_lines = {}
     prev_live = {}
+    de_worlds = set()      # worlds whose content came out of the deserializer from mutated input (or were copied from one)
     for i, st in enumerate(impl_case["steps"]):
         t = st["op"].split()
         k = t[0]
+        n_before = len(fails)
+        de_before = set(de_worlds)
+        try:
+            if k == "cde":
+                (de_worlds.add if (st["ret"] or "") == "ok" else de_worlds.discard)(int(t[1]))
+            elif k in ("new", "drop"):
+                de_worlds.discard(int(t[1]))
+            elif k in ("mde", "tde", "srd"):
+                de_worlds.discard(int(t[2]) if len(t) > 2 and k != "tde" else int(t[1]))
+            elif k == "cln":
+                (de_worlds.add if int(t[1]) in de_worlds else de_worlds.discard)(int(t[2]))
+            elif k == "clf":
+                (de_worlds.add if int(t[2]) in de_worlds else de_worlds.discard)(int(t[1]))
+        except (ValueError, IndexError):
+            pass
         before = value_multiset(ref)
         src_before = None
         dst_before = None
@@ -1363,6 +1378,17 @@ def oracle_case(impl_case):
         for ws, w in st["worlds"].items():
             for b in check_inv(w):
                 fails.append((i, "C13", "world %d: %s" % (ws, b)))
+        # C11: "never hands back a world that later misbehaves" — whatever goes wrong on a world that came out of
+        # the deserializer from mutated input is (also) a failure of the deserializer's validation
+        try:
+            ws_op = int(t[1]) if k not in ("cde", "mde", "tde", "new") else None
+        except (ValueError, IndexError):
+            ws_op = None
+        if ws_op is not None and ws_op in de_before:
+            for (i_, p_, m_) in fails[n_before:]:
+                if p_ in ("C01", "C02", "C13", "C03", "C05"):
+                    fails.append((i_, "C11", "a world handed back by the deserializer later misbehaves: " + m_))
+                    break
         # C04: ledger delta = what the reference map loses (drops), what clone/deserialize copies
         after = value_multiset(ref)
         exp = Counter()
